@@ -89,7 +89,7 @@ def sources():
                 'remove_unicode_matches(EnglishChoice.TrueRegex) (no flags: RegExpUtility.get_matches)'))
     out.append(('boolFalseRegex', remove_unicode_matches_text(ch.FalseRegex), 0,
                 'remove_unicode_matches(EnglishChoice.FalseRegex) (no flags)'))
-    out.append(('boolTokenizerRegex', ch.TokenizerRegex, FLAG_IS, 'EnglishChoice.TokenizerRegex (regex.I | regex.S)'))
+    out.append(('boolTokenizerRegex', ch.TokenizerRegex, regex.S, 'EnglishChoice.TokenizerRegex (regex.S)'))
     # raw texts as well (C20 models the rewrite itself)
     out.append(('boolTrueRegexRaw', None, 0, ch.TrueRegex))
     out.append(('boolFalseRegexRaw', None, 0, ch.FalseRegex))
